@@ -141,6 +141,11 @@ class Folder:
         if isinstance(node, ast.Call) and isinstance(node.func, ast.Attribute) and not (call_name(node) or "").startswith(("torch.", "math.", "np.", "numpy.", "F.", "cmath.")):
             # method form on a foldable receiver: x.abs(), x.sum(dim=..), x.min(dim=..), x.to(..), x.float()
             m = node.func.attr
+            if m == "bit_length" and not node.args:
+                v = self.fold(node.func.value)
+                if isinstance(v, int) and not isinstance(v, bool):
+                    return v.bit_length()
+                raise Unfoldable("bit_length of a non-integer")
             if m in ("to", "float", "int", "long", "double", "type", "clone", "contiguous", "item", "detach"):
                 return self.fold(node.func.value)
             if m in ("abs", "sum", "prod", "min", "max", "sign", "tanh", "sqrt", "exp", "argmin", "argmax", "amin", "amax", "all", "any", "numel", "dim", "conj", "mean"):
